@@ -61,7 +61,7 @@ func TestC01(t *testing.T) {
 	mon.Main(t, mon.Check{
 		ID:    "C01",
 		Level: "exploration",
-		Rule:  "PRNG-drawn GBN scenarios (window N stratified over {1,2,3,4,5,20,127,128,253,254} in quick, every N in 1..254 in thorough; >=3*(N+1) messages per active direction so the sequence space wraps >=3 times; per-packet drop<=50%, in-order dup<=50%, delay<=3x resend timeout on both directions for 5..120 virtual seconds; static/adaptive timeouts; keepalive off/on; chunking off/on) run on the real gbn code in virtual time; oracle: Recv sequence is a byte-exact prefix of the accepted Send sequence per direction. A case is non-trivial if at least one packet was dropped or duplicated and at least one message was delivered; distinct = distinct wire-trace hash.",
+		Rule:  "PRNG-drawn GBN scenarios (window N stratified over {1,2,3,4,5,20,127,128,253,254} in quick, every N in 1..254 in thorough; >=3*(N+1) messages per active direction so the sequence space wraps >=3 times; per-packet drop<=50%, in-order dup<=50%, delay<=3x resend timeout on both directions for 5..120 virtual seconds; static/adaptive timeouts; keepalive off/on; chunking off/on) run on the real gbn code in virtual time; oracle: Recv sequence is a byte-exact prefix of the accepted Send sequence per direction. One scenario in eight also has one transport write (of either endpoint, PRNG-chosen position) fail once with an error instead of losing its packet: the connection may give up, what it delivered must still be a prefix. A case is non-trivial if at least one packet was dropped or duplicated and at least one message was delivered; distinct = distinct wire-trace hash.",
 		Assumptions: []string{
 			"transport preserves per-direction order (enforced by sim.Link)",
 			"faults start after a clean GBN handshake",
